@@ -18,51 +18,71 @@ fn viol(oracle: &str, kind: &str, site: &str, detail: String) -> Option<Violatio
     Some(Violation { property: "C10".into(), oracle: oracle.into(), kind: kind.into(), site: site.into(), detail })
 }
 
-/// Flip the first constrained leaf of a value: a Bool, or the first ASCII char of a string.
-/// Returns the changed value and what kind of leaf it was.
-fn flip_leaf(v: &Val) -> Option<(Val, u8)> {
+/// All constrained leaves of a value: (path, kind, char byte-offset) for every Bool and for every
+/// ASCII character of every string.
+fn leaves(v: &Val, path: &mut Vec<usize>, out: &mut Vec<(Vec<usize>, u8, usize)>) {
     match v {
-        Val::B(b) => Some((Val::B(!*b), 0)),
+        Val::B(_) => out.push((path.clone(), 0, 0)),
         Val::S(s) => {
-            let c = s.chars().next()?;
-            if !c.is_ascii() || c == '\0' {
-                return None;
-            }
-            let nc = if c == 'a' { 'b' } else { 'a' };
-            let mut t = String::new();
-            t.push(nc);
-            t.push_str(&s[1..]);
-            Some((Val::S(t), 1))
-        }
-        Val::L(items) | Val::R(items) => {
-            for (i, x) in items.iter().enumerate() {
-                if let Some((nx, k)) = flip_leaf(x) {
-                    let mut c = items.clone();
-                    c[i] = nx;
-                    return Some((if matches!(v, Val::L(_)) { Val::L(c) } else { Val::R(c) }, k));
+            for (i, c) in s.char_indices() {
+                if c.is_ascii() && c != '\0' {
+                    out.push((path.clone(), 1, i));
                 }
             }
-            None
         }
-        Val::V(t, items) => {
+        Val::L(items) | Val::R(items) | Val::V(_, items) => {
             for (i, x) in items.iter().enumerate() {
-                if let Some((nx, k)) = flip_leaf(x) {
-                    let mut c = items.clone();
-                    c[i] = nx;
-                    return Some((Val::V(*t, c), k));
-                }
+                path.push(i);
+                leaves(x, path, out);
+                path.pop();
             }
-            None
         }
-        _ => None,
+        _ => {}
     }
+}
+
+fn flip_at(v: &Val, path: &[usize], at: usize) -> Val {
+    if path.is_empty() {
+        return match v {
+            Val::B(b) => Val::B(!*b),
+            Val::S(s) => {
+                let mut b = s.clone().into_bytes();
+                b[at] = if b[at] == b'a' { b'b' } else { b'a' };
+                Val::S(String::from_utf8(b).unwrap_or_default())
+            }
+            other => other.clone(),
+        };
+    }
+    let rebuild = |items: &Vec<Val>| -> Vec<Val> {
+        let mut c = items.clone();
+        c[path[0]] = flip_at(&items[path[0]], &path[1..], at);
+        c
+    };
+    match v {
+        Val::L(items) => Val::L(rebuild(items)),
+        Val::R(items) => Val::R(rebuild(items)),
+        Val::V(t, items) => Val::V(*t, rebuild(items)),
+        other => other.clone(),
+    }
+}
+
+/// Change one constrained leaf (chosen by the decider) of a value: a Bool, or one ASCII
+/// character of a string.  Returns the changed value and the kind of leaf.
+fn flip_leaf(v: &Val, dec: &mut Decider) -> Option<(Val, u8)> {
+    let mut out = Vec::new();
+    leaves(v, &mut Vec::new(), &mut out);
+    if out.is_empty() {
+        return None;
+    }
+    let (path, kind, at) = out[dec.below(St::Bytes, out.len() as u32) as usize].clone();
+    Some((flip_at(v, &path, at), kind))
 }
 
 /// Differentially confirmed aim: emplace the value and its one-leaf variant; if exactly one byte
 /// of the frame differs (0/1 for a Bool, the two ASCII chars for a string) that byte *is* the
 /// leaf.  Returns (offset in frame, a byte value the documentation declares invalid there).
-fn confirmed_aim<M: ZooMsg + ?Sized>(val: &Val, frame: &[u8], cap: usize) -> Option<(usize, u8)> {
-    let (v2, kind) = flip_leaf(val)?;
+fn confirmed_aim<M: ZooMsg + ?Sized>(val: &Val, frame: &[u8], cap: usize, dec: &mut Decider) -> Option<(usize, u8)> {
+    let (v2, kind) = flip_leaf(val, dec)?;
     let mut buf = AlignedBytes::new(cap, M::ALIGN);
     buf.fill(0);
     let size = guarded(|| M::emplace_val(&mut buf, &v2).map(|m| m.size())).ok()?.ok()?;
@@ -90,7 +110,10 @@ fn confirmed_aim<M: ZooMsg + ?Sized>(val: &Val, frame: &[u8], cap: usize) -> Opt
     if !ok {
         return None;
     }
-    Some((at, if kind == 0 { 2 } else { 0xFF }))
+    // a byte the documentation declares invalid there: Bool not in {0,1}; a byte that makes
+    // the string ill-formed UTF-8 (stray 0xFF / lone continuation / lead byte without its tail)
+    let bad = if kind == 0 { [2u8, 0xFF, 0x80, 3][dec.below(St::Bytes, 4) as usize] } else { [0xFFu8, 0xC3, 0xE2, 0x80, 0xF0][dec.below(St::Bytes, 5) as usize] };
+    Some((at, bad))
 }
 
 #[derive(Debug)]
@@ -246,7 +269,7 @@ fn build_hostile<M: ZooMsg + ?Sized>(sc: &Scenario, dec: &mut Decider, stats: &m
                 let (fs, fe) = bounds[fi];
                 let frame = &valid[fs..fe];
                 // (i) documentation-based, differentially aimed: Bool := 2, string byte := 0xFF
-                let aim = if kind == 4 { confirmed_aim::<M>(&wire.vals[fi], frame, cap) } else { None };
+                let aim = if kind == 4 { confirmed_aim::<M>(&wire.vals[fi], frame, cap, dec) } else { None };
                 let edit: Option<(usize, u8)> = match aim {
                     Some(a) => Some(a),
                     None => {
@@ -346,7 +369,10 @@ fn check_hostile<M: ZooMsg + ?Sized>(w: &World, h: &Hostile, wire: &crate::c06::
             RecvOutcome::InFlight => return viol("O1-outcomes", "hang", "recv", format!("recv #{} never returned", i)),
             RecvOutcome::ReadErr(k) if k != "OutOfMemory" => return viol("O1-outcomes", "phantom-error", "recv", format!("recv #{} returned Read({}) although no read failed", i, k)),
             // O2: a guard lies inside the bytes received and never over-consumes
-            RecvOutcome::Msg { size, view_len, occupied, .. } => {
+            RecvOutcome::Msg { size, view_len, occupied, invalid, .. } => {
+                if let Some(what) = invalid {
+                    return viol("O2-guard-valid", "invalid-content", "recv", format!("recv #{} ({}) handed out a message that is not a valid value: {}", i, h.kind, what));
+                }
                 if size > occupied {
                     return viol("O2-guard-bounds", "over-consume", "recv", format!("recv #{} ({}): guard size() {} exceeds the {} bytes received and not yet consumed", i, h.kind, size, occupied));
                 }
@@ -463,9 +489,7 @@ pub fn systematic_c09(backend: &str, seed: u64, tier: &str) -> Vec<Scenario> {
                     let mut whats: Vec<(u32, bool)> = vec![(0, false)];
                     for k in kinds {
                         whats.push((1 + k, false));
-                        if k != 0 {
-                            whats.push((1 + k, true));
-                        }
+                        whats.push((1 + k, true));
                     }
                     for (what, persistent) in whats {
                         let mut sc = base.clone();
@@ -477,9 +501,7 @@ pub fn systematic_c09(backend: &str, seed: u64, tier: &str) -> Vec<Scenario> {
                     let mut whats: Vec<(u32, bool)> = vec![(0, false)];
                     for k in kinds {
                         whats.push((1 + k, false));
-                        if k != 0 {
-                            whats.push((1 + k, true));
-                        }
+                        whats.push((1 + k, true));
                     }
                     for (what, persistent) in whats {
                         let mut sc = base.clone();
